@@ -405,7 +405,7 @@ func c11Config(r *rand.Rand) *RunConfig {
 		Clients: 2, Docs: 2, Projects: 1, Steps: 8 + r.IntN(30),
 		SnapshotThreshold: pickN(r, []int64{2, 500}), SnapshotInterval: pickN(r, []int64{2, 500}), SnapshotCacheSize: 10,
 		W:     map[string]int{"activate": 3, "deactivate": 2, "attach": 6, "pushpull": 8, "detach": 4, "remove": 1},
-		Extra: map[string]int{"net_fault_pct": 5 * r.IntN(2)},
+		Extra: map[string]int{"net_fault_pct": 5 * r.IntN(2), "shard_collide": r.IntN(2)},
 	}
 }
 
